@@ -1,6 +1,7 @@
 """Module for reading and writing schema objects."""
 
 import json
+import re
 import warnings
 from collections.abc import Mapping
 from functools import partial
@@ -623,6 +624,9 @@ def to_script(dataframe_schema, path_or_buf=None):
         script = "from pandas import Timedelta\n" + script
     if "Timestamp" in script:
         script = "from pandas import Timestamp\n" + script
+    # repr() of a non-finite float statistic is a bare name
+    if re.search(r"\b(inf|nan)\b", script):
+        script = "from math import inf, nan\n" + script
 
     formatted_script = _format_script(script)
 
